@@ -101,6 +101,9 @@ struct Result {
     void ev(const std::string& k, long long n = 1) { events[k] += n; }
 };
 
+// Announce the case description before the work starts, so that a process death can be attributed to a described input.
+inline void announce(const std::string& d) { printf("DESC %s\n", jesc(d).c_str()); fflush(stdout); }
+
 // A harness defines modes; each mode has a count(tier) and run(k, seed, tier, Result&).
 struct Mode {
     std::string name;
